@@ -1109,4 +1109,10 @@ CASES += [
  dict(id='r11-tte-selection-predicate-widened', kind='fire', file='src/truth_table.rs', old='            .find(|variant| variant.matches(s))',
       new='            .find(|variant| variant.matches(s) || (s.len() == 1 && variant.to_string().to_lowercase().contains(s)))',
       expect={'C20': 'selection predicate', 'C10': 'selection predicate'}, control=False),
+ dict(id='r11-tte-selection-predicate-named-closure', kind='silent', file='src/truth_table.rs', old='''        Self::variants()
+            .iter()
+            .find(|variant| variant.matches(s))''', new='''        let spelled_as = |variant: &&Self| variant.matches(s);
+        Self::variants()
+            .iter()
+            .find(spelled_as)''', checks=['C20', 'C10']),
 ]
